@@ -383,7 +383,45 @@ def _roundtrip(obj, from_json, encoder):
     except BaseException as e:  # noqa
         out['back'] = {'raised': core.exc_name(e)}
         out['wire2'] = None
+        return out
+    # deserialised messages own their payload: changing one in place (what a middleware may do with the parameters it was
+    # handed) must not change what the same text deserialises to afterwards
+    try:
+        _disturb(back)
+        again = from_json(json.loads(t2))
+        out['independent'] = encoder(again) == out['back']['ok']
+        if not out['independent']:
+            out['after_disturbance'] = encoder(again)
+    except BaseException as e:  # noqa
+        out['independent'] = False
+        out['after_disturbance'] = core.exc_name(e)
     return out
+
+
+_SENTINEL = '<injected-in-place>'
+
+
+def _disturb_value(v):
+    if isinstance(v, list):
+        v.append(_SENTINEL)
+    elif isinstance(v, dict):
+        v[_SENTINEL] = 1
+
+
+def _disturb(m):
+    if isinstance(m, (pjrpc.BatchRequest, pjrpc.BatchResponse)):
+        for x in m:
+            _disturb(x)
+        return
+    if isinstance(m, pjrpc.Request):
+        _disturb_value(m.params)
+    elif isinstance(m, pjrpc.Response):
+        if m.is_success:
+            _disturb_value(m.result)
+        elif m.error.data is not UNSET:
+            _disturb_value(m.error.data)
+    elif isinstance(m, E.JsonRpcError) and m.data is not UNSET:
+        _disturb_value(m.data)
 
 
 def run_impl(c):
@@ -502,7 +540,7 @@ def project(prop, c, out):
             # a batch serialised, grown and serialised again: the wire form follows the elements (the model's toJson is a
             # function of the current elements)
             return {'wire_follows_elements': out.get('wire_follows_elements', True)}
-        o = {k: v for k, v in out.items() if k not in ('text_equal', 'codec_ok')}
+        o = {k: v for k, v in out.items() if k not in ('text_equal', 'codec_ok', 'independent', 'after_disturbance')}
         return _drop_ids(o)            # the id *set* is bookkeeping for C06's duplicate check, not a wire field
     return None
 
@@ -611,6 +649,9 @@ def oracle(prop, c, out):
                 if got_ids != want_ids or sorted(json.dumps(i) for i in out['final']['ids']) != sorted(seen):
                     f.append(Finding(prop, 'batch-changed-by-refused-op', 'batch contents / id set differ from the accepted operations', c, out,
                                      {'elements': want_ids, 'ids': sorted(seen)}))
+    if prop == 'C05' and out.get('independent') is False:
+        f.append(Finding(prop, 'deserialised-messages-share-state', f'{op}: after a deserialised message was changed in place, the same text '
+                                                                    f'deserialises to something else: {json.dumps(out.get("after_disturbance"))[:200]}', c, out))
     if prop == 'C05' and op.endswith('_hist') and not out.get('wire_follows_elements', True):
         f.append(Finding(prop, 'stale-wire-form', f'{op}: after growing a batch that had been serialised, to_json() / the encoder do not '
                                                   f'give the array of the current elements', c, out))
